@@ -103,6 +103,9 @@ pub struct Cfg {
     pub buffer_size: usize,
     pub buffer_items: usize,
     pub cleanup_ms: u64,
+    /// when non-zero: the cleanup interval in nanoseconds (sub-millisecond intervals), overriding cleanup_ms
+    #[serde(default)]
+    pub cleanup_ns: u64,
     pub metrics: bool,
     pub ignore_internal_cost: bool,
     pub validator: ValidatorMode,
@@ -115,6 +118,15 @@ pub struct Cfg {
     /// metrics / histogram atomics are scheduling points
     pub metrics_points: bool,
 }
+impl Cfg {
+    pub fn cleanup_interval(&self) -> Duration {
+        if self.cleanup_ns > 0 {
+            Duration::from_nanos(self.cleanup_ns)
+        } else {
+            Duration::from_millis(self.cleanup_ms)
+        }
+    }
+}
 impl Default for Cfg {
     fn default() -> Self {
         Cfg {
@@ -123,6 +135,7 @@ impl Default for Cfg {
             buffer_size: 8,
             buffer_items: 64,
             cleanup_ms: 1000,
+            cleanup_ns: 0,
             metrics: false,
             ignore_internal_cost: true,
             validator: ValidatorMode::Always,
@@ -458,7 +471,7 @@ pub fn build(cfg: &Cfg, flavor: Flavor) -> Result<(H, Shared), stretto::CacheErr
                 .set_ignore_internal_cost(cfg.ignore_internal_cost)
                 .set_buffer_size(cfg.buffer_size)
                 .set_buffer_items(cfg.buffer_items)
-                .set_cleanup_duration(Duration::from_millis(cfg.cleanup_ms))
+                .set_cleanup_duration(cfg.cleanup_interval())
                 .set_metrics(cfg.metrics)
                 .finalize()?;
             c.verif_observe_policy(obs);
@@ -474,7 +487,7 @@ pub fn build(cfg: &Cfg, flavor: Flavor) -> Result<(H, Shared), stretto::CacheErr
                 .set_ignore_internal_cost(cfg.ignore_internal_cost)
                 .set_buffer_size(cfg.buffer_size)
                 .set_buffer_items(cfg.buffer_items)
-                .set_cleanup_duration(Duration::from_millis(cfg.cleanup_ms))
+                .set_cleanup_duration(cfg.cleanup_interval())
                 .set_metrics(cfg.metrics)
                 .finalize(rt::thread::spawn_task)?;
             c.verif_observe_policy(obs);
